@@ -216,6 +216,8 @@ impl Server {
         ticket: u64,
         notify: impl FnOnce() -> Result<(), Box<dyn Error>>,
     ) {
+        #[cfg(parol_verif)]
+        crate::verif_sync::point(crate::verif_sync::Point::LockAcquire(0));
         {
             let latest_analyses = latest_analyses.lock().unwrap_or_else(|e| e.into_inner());
             if latest_analyses.get(uri) == Some(&ticket) {
@@ -224,12 +226,16 @@ impl Server {
                 eprintln!("check_grammar: dropping outdated diagnostics of analysis {ticket}");
             }
         }
+        #[cfg(parol_verif)]
+        crate::verif_sync::point(crate::verif_sync::Point::LockReleased(0));
     }
 
     /// Registers a new analysis of a document and returns its ticket. Diagnostics of analysis
     /// threads that are still working on older states of the document are dropped from now on.
     fn register_analysis(&mut self, uri: &Uri) -> u64 {
         self.analysis_counter += 1;
+        #[cfg(parol_verif)]
+        crate::verif_sync::point(crate::verif_sync::Point::LockAcquire(0));
         {
             let mut latest_analyses = self
                 .latest_analyses
@@ -237,6 +243,8 @@ impl Server {
                 .unwrap_or_else(|e| e.into_inner());
             latest_analyses.insert(uri.clone(), self.analysis_counter);
         }
+        #[cfg(parol_verif)]
+        crate::verif_sync::point(crate::verif_sync::Point::LockReleased(0));
         self.analysis_counter
     }
 
@@ -504,6 +512,8 @@ impl Server {
 
     fn cleanup(&mut self, uri: &Uri) {
         self.documents.remove(uri);
+        #[cfg(parol_verif)]
+        crate::verif_sync::point(crate::verif_sync::Point::LockAcquire(0));
         {
             let mut latest_analyses = self
                 .latest_analyses
@@ -511,6 +521,8 @@ impl Server {
                 .unwrap_or_else(|e| e.into_inner());
             latest_analyses.remove(uri);
         }
+        #[cfg(parol_verif)]
+        crate::verif_sync::point(crate::verif_sync::Point::LockReleased(0));
     }
 
     fn apply_changes(&mut self, uri: &Uri, content_changes: &[TextDocumentContentChangeEvent]) {
